@@ -292,8 +292,8 @@ def sparse_items(seed, tier):
     out = []
     k = 0
     NSYM = 7 if tier != "thorough" else 10
-    for n in ((6, 7) if tier != "thorough" else (6, 7, 8, 9)):
-        for rep_ in range(2 if tier != "thorough" else 5):
+    for n in ((6, 7) if tier != "thorough" else (6, 7, 8)):
+        for rep_ in range(2 if tier != "thorough" else 3):
             verts = list(range(n)); rnd.shuffle(verts)
             root = verts[0]
             fixed = set()
@@ -492,6 +492,20 @@ def replay_real(alg, n, root, edges):
     return rr
 
 
+def real_meets_definition(alg, n, root, edges, rr):
+    """the definition evaluated on the REAL code's result for the concrete counterexample graph: True means the real code is
+    right on this graph, i.e. the symbolic finding does not reproduce (None: cannot tell)"""
+    if not rr.get("ok") or "result" not in rr: return None
+    try:
+        g = G(n, cand=set(), fixed=set(map(tuple, edges)))
+        kind, real = norm_real(alg, rr["result"])
+        sp = spec(alg, g, root if ALGS[alg][1] else None, real, kind == "ok")
+        v, m, dt = solve.check([z3.Not(sp)], 20000)
+        return True if v == solve.UNSAT else (False if v == solve.SAT else None)
+    except Exception:
+        return None
+
+
 def main():
     drv.build()
     rep = common.Report("C11", "model_checking")
@@ -500,19 +514,24 @@ def main():
     T = rep.tier == "thorough"
     n = 4 if T else 3
     items = []
-    heavy = ("frontiers", "loops", "is_reducible", "dominator_tree", "acyclic", "unreachable", "pre_order")
+    # measured cost of one n=4 item (12 symbolic edges after the 4-edge prefix, 4096 paths): 70-160 s for the first group,
+    # 200-520 s for `heavy`; the thorough tier is sized to about half an hour on 16 cores
+    heavy = ("dominators", "dominator_tree", "frontiers", "predecessors", "acyclic", "is_reducible", "loops", "unreachable")
+    import random
+    rnd = random.Random(rep.seed * 7919 + 11)
     for alg in ALGS:
-        roots = (0, n - 1) if ALGS[alg][1] else (0,)
-        if T and alg in heavy:
-            roots = roots[:1]          # 4 vertices, all 16 edges: one root for the algorithms built on the ones run with both roots
-        for root in roots:
-            if T:
+        roots = (0, 2) if ALGS[alg][1] else (0,)
+        for root in roots:                      # every tier: 3 vertices, all 9 edges symbolic, both roots
+            items.append({"alg": alg, "n": 3, "root": root})
+        if T:
+            root = 0
+            ks = [(root, j) for j in range(n)]
+            prefixes = list(itertools.product([False, True], repeat=len(ks)))
+            if alg in heavy:
+                prefixes = rnd.sample(prefixes, 4)          # 4 of the 16 sub-spaces (seeded by VERIF_SEED); each is decided completely
+            for bits in prefixes:
                 # split the path space on the root's outgoing edges so that the work spreads over the cores
-                ks = [(root, j) for j in range(n)]
-                for bits in itertools.product([False, True], repeat=len(ks)):
-                    items.append({"alg": alg, "n": n, "root": root, "prefix": dict(zip(ks, bits)), "validate_every": 31})
-            else:
-                items.append({"alg": alg, "n": n, "root": root})
+                items.append({"alg": alg, "n": n, "root": root, "prefix": dict(zip(ks, bits)), "validate_every": 31})
     items += sparse_items(rep.seed, rep.tier)
     ne = 3
     for x in range(ne + 1):
@@ -521,6 +540,8 @@ def main():
         for t in range(ne + 1):
             if h < ne and t < ne or (h, t) in ((ne, 0), (0, ne)):
                 items.append({"n": ne, "op": ["remove_edge", h, t]}); items.append({"n": ne, "op": ["insert_edge", h, t]})
+    cost = lambda it_: (0 if it_.get("op") else (300 * (it_["n"] - 5) if it_.get("cand") is not None else ((400 if it_["alg"] in heavy else 100) if it_["n"] == 4 else 1)))
+    items.sort(key=cost, reverse=True)          # longest first: the pool hands items out in order
     results = common.pmap(work, items, chunksize=1)
     fns = {}
     paths = 0; validated = 0
@@ -553,14 +574,14 @@ def main():
                     rep.encoder_defect(f"model does not reproduce: {r['what']}: {f['detail']}; {note}"); continue
                 rep.violation(sig, f"{r['what']}: {f['kind']}: {f['detail']}; {note}", {"item": it, "finding": f, "real_code": rr}); continue
             rr = replay_real(r["alg"], it["n"], it["root"], f["edges"])
-            confirmed = ("panic" in rr) if f["kind"] == "panic" else True
+            confirmed = ("panic" in rr) if f["kind"] == "panic" else (real_meets_definition(r["alg"], it["n"], it["root"], f["edges"], rr) is not True)
             note = f"real code on vertices 0..{it['n'] - 1}, edges {f['edges']}, root {it['root']}: {json.dumps(rr)[:200]}"
-            if f["kind"] == "panic" and not confirmed:
+            if not confirmed:
                 rep.encoder_defect(f"model does not reproduce: {r['what']}: {f['detail']}; {note}"); continue
             rep.violation(sig, f"{r['what']}: {f['kind']}: {f['detail']}; {note}", {"item": it, "finding": f, "real_code": rr})
     rep.functions_encoded = sorted(fns)[:60]
-    rep.bounds = {"vertices": n, "edges": "all n*n edge subsets (self-loops included), symbolic", "roots": "0 and n-1",
-                  "sparse": "plus graphs of 6..8 (thorough 6..10) vertices with a random spanning tree from a random root fixed and 7 (thorough 10) further edges symbolic (seeded by VERIF_SEED), for the dominator/loop algorithms",
+    rep.bounds = {"vertices": "3: all 9 edges symbolic (self-loops included), roots 0 and 2" + ("; 4: root 0, the 16 edges symbolic, split on the root's 4 outgoing edges into 16 sub-spaces - all 16 for reachable/pre_order/post_order/idom/is_acyclic/topological, 4 seeded ones for the other algorithms" if T else ""),
+                  "sparse": "plus graphs of 6..7 (thorough 6..8) vertices with a random spanning tree from a random root fixed and 7 (thorough 10) further edges symbolic (seeded by VERIF_SEED), for the dominator/loop algorithms",
                   "edits": "one insert_vertex/insert_edge/remove_vertex/remove_edge step from an arbitrary consistent graph on a symbolic subset of 3 vertices (inductive step: sequences of edits follow)",
                   "outside": "more vertices; vertex ids other than 0..n-1; compute_loop_tree, dot output"}
     rep.finish({"states": max(1, paths), "transitions": max(1, rep.queries["unsat"] + rep.queries["sat"]), "traces_validated_against_impl": validated,
